@@ -2,6 +2,7 @@ package checks
 
 import (
 	"fmt"
+	"math/rand"
 	"os"
 	"strings"
 
@@ -40,6 +41,11 @@ func checkC12(c *Ctx) error {
 		return fmt.Errorf("harness function missing")
 	}
 	total := runVarPoolHistories(c, k, fn, maxK, maxLen, nil, "C12")
+	// Translator validation: seeded concrete histories through the interpreter
+	// and through the native build must give identical outputs.
+	if err := validateVarPoolTranslator(c, k); err != nil {
+		return err
+	}
 	// Gate (by-product, never the basis of the claim): adversarially named
 	// declarations through the real CLI; generated identifiers read back from
 	// go/types scopes.
@@ -175,4 +181,76 @@ func lastLines(s string, n int) string {
 		ls = ls[len(ls)-n:]
 	}
 	return strings.Join(ls, " | ")
+}
+
+func validateVarPoolTranslator(c *Ctx, k *Kernel) error {
+	fn := k.Pkg.Func("verifHarnessVarPoolConcrete")
+	if fn == nil {
+		return fmt.Errorf("concrete harness missing")
+	}
+	rng := rand.New(rand.NewSource(int64(c.Seed) + 7))
+	pool := []string{"foo", "foo0", "fooCh", "fooCh0", "int", "int0", "err", "err0", "ctx", "nil", "a", "a1", "len", "x_", "goto"}
+	type hist struct {
+		ops   []int
+		names []string
+	}
+	var hs []hist
+	for i := 0; i < 40; i++ {
+		n := 3 + rng.Intn(6)
+		h := hist{}
+		for j := 0; j < n; j++ {
+			h.ops = append(h.ops, rng.Intn(3))
+			h.names = append(h.names, pool[rng.Intn(len(pool))])
+		}
+		hs = append(hs, h)
+	}
+	var symOut []string
+	for _, h := range hs {
+		h := h
+		res := k.E.Run(fn, func(ps *symx.PathState) []any {
+			ops := make([]any, len(h.ops))
+			for i, o := range h.ops {
+				ops[i] = o
+			}
+			return []any{symx.MkSlice(ops...), symx.StringSliceArg(h.names)}
+		}, nil)
+		if len(res) != 1 || res[0].Outcome != "ok" {
+			return fmt.Errorf("translator validation: concrete history did not run to a single ok path (%d paths)", len(res))
+		}
+		symOut = append(symOut, symx.ValueString(res[0].Ret))
+	}
+	var call strings.Builder
+	call.WriteString("for _, h := range []struct{ops []int; names []string}{")
+	for _, h := range hs {
+		fmt.Fprintf(&call, "{%#v, %#v},", h.ops, h.names)
+	}
+	call.WriteString("} { fmt.Println(\"VERIF-OUT\", verifHarnessVarPoolConcrete(h.ops, h.names)) }")
+	out, err := k.ReplayNative("internal/kessoku", "kessoku", call.String(), nil)
+	var natOut []string
+	for _, l := range strings.Split(out, "\n") {
+		if i := strings.Index(l, "VERIF-OUT "); i >= 0 {
+			natOut = append(natOut, strings.TrimSpace(l[i+len("VERIF-OUT "):]))
+		}
+	}
+	if len(natOut) != len(symOut) {
+		return fmt.Errorf("translator validation: native run produced %d of %d outputs (%v): %s", len(natOut), len(symOut), err, lastLines(out, 4))
+	}
+	mism := 0
+	for i := range symOut {
+		// interpreter prints slices as [a b c]; so does fmt
+		if normSlice(symOut[i]) != normSlice(natOut[i]) {
+			mism++
+			c.Inconclusive(fmt.Sprintf("translator validation mismatch on history %v %v: interpreter %s, native %s", hs[i].ops, hs[i].names, symOut[i], natOut[i]))
+		}
+	}
+	c.Coverage["traces_validated_against_impl"] = len(symOut) - mism
+	c.Coverage["translator_validation_histories"] = len(symOut)
+	if mism > 0 {
+		return fmt.Errorf("translator validation: %d of %d concrete histories differ between interpreter and native build", mism, len(symOut))
+	}
+	return nil
+}
+
+func normSlice(s string) string {
+	return strings.Join(strings.Fields(strings.Trim(strings.TrimSpace(s), "[]")), " ")
 }
